@@ -9,7 +9,7 @@ package main
 // silently stops matching most of its sites is). Fewer obligations than the floor makes
 // the check BROKEN (exit 2), never a pass.
 var minOblFloor = map[string]int{
-	"C01": 77, "C02": 41, "C03": 41, "C04": 29, "C05": 65, "C06": 12, "C07": 21, "C08": 23,
+	"C01": 87, "C02": 41, "C03": 59, "C04": 45, "C05": 65, "C06": 17, "C07": 21, "C08": 23,
 	"C09": 36, // enumerated: functions writing Node fields
 	"C10": 28, // enumerated: functions with append / index sites
 	"C11": 16,
